@@ -1,4 +1,5 @@
 import PenneModel.Props.C14
+import PenneModel.Lit.Model
 /-
   C09 — literals mean exactly what they say.  Property theorems (lexical part).
 
@@ -115,3 +116,61 @@ theorem decimal_too_big (ln col off n : Nat) (hge : 2 ^ 128 ≤ n) (tail : List 
   exact lexStep_decimal_overflow ln col off c ds ds tail hc (withSep_refl ds) hds ht (by rw [hv]; exact hge)
 
 end Lex
+
+/-! ### After the lexer: folding, range lint, materialisation (Lit/Model.lean) -/
+namespace Lit
+open Lex
+
+/-- the integer types a literal can have -/
+def isIntTy : Ty → Bool
+  | .void | .bool => false
+  | _ => true
+
+/-- **the lint fires exactly on out-of-range values**: for a literal node that carries its own sign
+    (a decimal literal, possibly folded with a unary minus) the linter's two-branch test is the
+    documented range test -/
+theorem lint_iff_out_of_range (t : Ty) (ht : isIntTy t = true) (v : Int) (ty : Option Ty) :
+    lintNode t (.signed v ty) = !inRange t v := by
+  cases t <;> simp [isIntTy] at ht <;>
+    simp only [lintNode, inRange, minOf, maxOf, isSigned, width] <;>
+    by_cases h : v < 0 <;> simp [h] <;> rw [Bool.eq_iff_iff] <;> simp <;> omega
+/-- the same for hexadecimal/binary (bit) literals, which are never negative -/
+theorem lint_iff_out_of_range_bit (t : Ty) (ht : isIntTy t = true) (v : Nat) (ty : Option Ty) :
+    lintNode t (.bit v ty) = !inRange t (v : Int) := by
+  cases t <;> simp [isIntTy] at ht <;>
+    simp only [lintNode, inRange, minOf, maxOf, isSigned, width] <;>
+    simp <;> rw [Bool.eq_iff_iff] <;> simp <;> omega
+/-- **in-range literals are materialised exactly** (generator constant read back in the literal's type), for
+    every integer type; `usize` needs the full 64-bit mask, which is what the repaired generator uses -/
+theorem materialise_exact (t : Ty) (ht : isIntTy t = true) (v : Int) (ty : Option Ty)
+    (hr : inRange t v = true) : materialise (2 ^ 64) t (.signed v ty) = v := by
+  cases t <;> simp [isIntTy] at ht <;>
+    simp [inRange, minOf, maxOf, isSigned, width] at hr <;>
+    simp only [materialise, wrap, isSigned, width] <;> simp <;> omega
+theorem materialise_exact_bit (t : Ty) (ht : isIntTy t = true) (v : Nat) (ty : Option Ty)
+    (hr : inRange t (v : Int) = true) : materialise (2 ^ 64) t (.bit v ty) = v := by
+  cases t <;> simp [isIntTy] at ht <;>
+    simp [inRange, minOf, maxOf, isSigned, width] at hr <;>
+    simp only [materialise, wrap, isSigned, width] <;> simp <;> omega
+
+/-- with the pinned 32-bit mask the statement is false: the witness that was replayed on the real compiler -/
+theorem materialise_pinned_mask_counterexample :
+    inRange .usize 4294967296 = true ∧ materialise (2 ^ 32) .usize (.bit 4294967296 none) = 0 := by decide
+
+/-- **minus folding**: `-` in front of a decimal literal `k` with `1 ≤ k ≤ 2^127 - 1` denotes `-k` and is a single
+    signed literal node -/
+theorem minus_fold (k : Nat) (h1 : 1 ≤ k) (h2 : k ≤ i128Max) (ty : Option Ty) :
+    (primary (.dec k)).map negate = some (.signed (-(k : Int)) none) ∧
+    denotes (.signed (-(k : Int)) ty) = -(k : Int) := by
+  have h3 : ((k : Int) > 0) := by omega
+  have h4 : ¬ ((k : Int) ≤ 0) := by omega
+  simp [primary, h2, negate, denotes]
+  omega
+
+/-- the one decimal literal the folding cannot represent: `-2^127` stays a negated bit literal, and the linter then
+    looks at `2^127` — in range as a value, yet linted (finding F2, recorded in known-findings.json) -/
+theorem minus_fold_i128_min_counterexample :
+    let node := negate ((primary (.dec (2 ^ 127))).getD (.bit 0 none))
+    inRange .i128 (denotes node) = true ∧ lintNode .i128 node = true := by decide
+
+end Lit
